@@ -51,7 +51,7 @@ def gen_case(r: np.random.Generator, i: int, tier: str) -> dict:
     cur = n
     nops = int(r.integers(1, 5 if tier == "quick" else 8))
     for _ in range(nops):
-        kind = str(r.choice(["sel", "int", "slice", "mask", "partcat", "cat3", "pickle", "dict", "dict_nested"]))
+        kind = str(r.choice(["sel", "int", "slice", "nslice", "mask", "partcat", "cat3", "pickle", "dict", "dict_nested"]))
         if kind == "sel":
             k = int(r.integers(1, cur + 3))
             idxs = [int(v) for v in r.integers(0, cur, k)]
@@ -70,6 +70,19 @@ def gen_case(r: np.random.Generator, i: int, tier: str) -> dict:
             s = int(r.choice([1, 1, 2, 3]))
             ops.append({"op": "slice", "a": a, "b": b, "s": s})
             cur = len(range(a, b, s))
+        elif kind == "nslice":
+            # a slice as users write it: negative step, bounds omitted, negative, or beyond the ends (torch tensors do not support
+            # negative steps; the library says so by raising, which is not this property's subject)
+            if nsn == "torch" or cur < 2:
+                continue
+            opts = [None, -1, -2, -(cur + 2), cur - 1, cur + 5, int(r.integers(0, cur))]
+            a, b = opts[int(r.integers(len(opts)))], opts[int(r.integers(len(opts)))]
+            st = int(r.choice([-1, -1, -2, -3]))
+            idxs = list(range(*slice(a, b, st).indices(cur)))
+            if not idxs:
+                continue
+            ops.append({"op": "nslice", "a": a, "b": b, "s": st, "idxs": idxs})
+            cur = len(idxs)
         elif kind == "mask":
             m = [bool(v) for v in (r.random(cur) < 0.6)]
             if not any(m):
@@ -97,6 +110,13 @@ def gen_case(r: np.random.Generator, i: int, tier: str) -> dict:
     if not ops:
         ops = [{"op": "pickle"}]
     c["ops"] = ops
+    # parameter names as models have them: Greek-letter style names that coincide with FIELD names of the sample classes
+    # ("beta" is a temperature field of SMCSamples, "log_q" a density column).  The flat dictionary layout cannot represent such
+    # names (a documented limitation: columns and fields share one namespace), so they are used with the other operations only.
+    c["parameters"] = None
+    if not any(o["op"] == "dict" for o in ops) and r.random() < 0.4:
+        pool = ["alpha", "beta", "log_q", "mass", "dtype", "gamma"]
+        c["parameters"] = [pool[(i + j) % len(pool)] for j in range(d)]
     return c
 
 
@@ -108,6 +128,8 @@ def build(c: dict):
     dt = ns.native_dtype(c["ns"], c["width"])
     K = {"base": BaseSamples, "samples": Samples, "smc": SMCSamples}[c["cls"]]
     kw = dict(x=np.asarray(c["x"]), xp=xp, dtype=dt)
+    if c.get("parameters"):
+        kw["parameters"] = list(c["parameters"])
     for k, name in (("ll", "log_likelihood"), ("lp", "log_prior"), ("lq", "log_q")):
         if c[k] is not None:
             kw[name] = np.asarray(c[k])
@@ -163,6 +185,8 @@ def apply_impl(K, s, xp, op: dict):
         return s[op["i"]]
     if k == "slice":
         return s[op["a"]:op["b"]:op["s"]]
+    if k == "nslice":
+        return s[slice(op["a"], op["b"], op["s"])]
     if k == "mask":
         sp = op.get("spell", "xp")
         if sp == "list":
@@ -190,13 +214,15 @@ def ref_apply(ref: dict, op: dict, d: int) -> dict:
     k = op["op"]
     out = dict(ref)
     n = ref["n"]
-    if k in ("sel", "int", "slice", "mask", "partcat"):
+    if k in ("sel", "int", "slice", "nslice", "mask", "partcat"):
         if k == "sel":
             idx = np.asarray(op["idxs"], dtype=int)
         elif k == "int":
             idx = np.asarray([op["i"]])
         elif k == "slice":
             idx = np.arange(n)[op["a"]:op["b"]:op["s"]]
+        elif k == "nslice":
+            idx = np.arange(n)[slice(op["a"], op["b"], op["s"])]
         elif k == "mask":
             idx = np.nonzero(np.asarray(op["m"]))[0]
         else:
@@ -255,6 +281,8 @@ def model_line(c: dict, ops: list[dict]) -> str:
             parts += ["sel", "1", str(op["i"])]
         elif k == "slice":
             parts += ["slice", str(op["a"]), str(op["b"]), str(op["s"])]
+        elif k == "nslice":
+            parts += ["sel", str(len(op["idxs"]))] + [str(i) for i in op["idxs"]]
         elif k in ("mask", "partcat"):
             parts += [k, str(len(op["m"]))] + ["1" if b else "0" for b in op["m"]]
         elif k == "cat3":
@@ -310,7 +338,7 @@ def _j(v):
 
 
 def lite(c):
-    return {k: c[k] for k in ("cls", "ns", "width", "n", "d", "x", "ll", "lp", "lq", "beta", "logZ", "logZerr", "ops")}
+    return {k: c.get(k) for k in ("cls", "ns", "width", "n", "d", "x", "ll", "lp", "lq", "beta", "logZ", "logZerr", "ops", "parameters")}
 
 
 def run_one_impl(chk: core.Check, c: dict) -> dict:
@@ -354,6 +382,7 @@ def run_one_impl(chk: core.Check, c: dict) -> dict:
                 bad.append("ess")
         if bad:
             clause = {"sel": "selection keeps rows aligned", "int": "selection keeps rows aligned", "slice": "selection keeps rows aligned",
+                      "nslice": "selection keeps rows aligned",
                       "mask": "selection keeps rows aligned", "partcat": "partition restores", "cat3": "partition restores",
                       "pickle": "pickle round trip", "dict": "dict round trip", "dict_nested": "dict round trip"}[op["op"]]
             chk.fail(clause, case, f"op #{j} {op}: fields {sorted(set(bad))} differ from the plain-array reference",
